@@ -629,6 +629,37 @@ def _path_equivalence_inner(name, path, files, data, ref_lk, ref, root, mods):
             if second[1:] != first[1:]:
                 return ("source/code after the move: %r" % (second[1][:60],), "source/code before the move: %r" % (first[1][:60],))
             got = second[0]
+        elif path == "stale_generation_module":
+            # the module directory holds a module file written by another generation of the code generator (other magic
+            # number, newer than the template): it is regenerated, and what is rendered / reported is the regenerated module
+            from mako import codegen
+            lk = TemplateLookup([root], module_directory=mods)
+            t1 = lk.get_template("/t")
+            path_ = t1.module.__file__
+            with open(path_, "rb") as fp:
+                old = fp.read()
+            marker = b"__M_writer = context.writer()"
+            magic = ("_magic_number = %r" % codegen.MAGIC_NUMBER).encode()
+            assert marker in old and magic in old
+            old = old.replace(magic, ("_magic_number = %r" % (codegen.MAGIC_NUMBER - 1)).encode())
+            old = old.replace(marker, marker + b"; __M_writer('WRITTEN-BY-AN-OLDER-GENERATOR ')")
+            with open(path_, "wb") as fp:
+                fp.write(old)
+            t2 = TemplateLookup([root], module_directory=mods).get_template("/t")
+            got = t2.render_unicode(**data)
+            if "OLDER-GENERATOR" in (t2.code or "") and "OLDER-GENERATOR" not in got:
+                return ("Template.code is the outdated module", "Template.code is the module that renders")
+            if got == ref and b"OLDER-GENERATOR" in open(path_, "rb").read():
+                return ("the outdated module file is still in place", "regenerated module file")
+        elif path == "get_def_arguments":
+            # a def with arguments rendered on its own: every argument given to render() arrives, None / 0 / '' / False included
+            src = "<%def name='row(label, value=\"n/a\", *extra, flag=1)'>${repr(label)}|${repr(value)}|${repr(flag)}</%def>"
+            outs, refs = [], []
+            for v in (None, 0, "", False, "v"):
+                t = Template(src + "${row(label, value=value, flag=flag)}")
+                refs.append(t.render_unicode(label=v, value=v, flag=v))
+                outs.append(Template(src).get_def("row").render_unicode(label=v, value=v, flag=v))
+            return (" ".join(outs), " ".join(refs))
         elif path == "get_def":
             # the def rendered on its own must give what it gives when called from the body
             got = TemplateLookup([root]).get_template("/t").get_def("d").render_unicode(**data)
